@@ -7,7 +7,7 @@ res={}
 if os.path.exists(V+'/seeded/RESULTS.json'): res=json.load(open(V+'/seeded/RESULTS.json'))
 for d in sorted(os.listdir(V+'/seeded')):
     p=V+'/seeded/'+d
-    if not os.path.isdir(p) or (only and d not in only): continue
+    if not os.path.isdir(p) or not os.path.exists(p+'/meta.json') or (only and d not in only): continue
     meta=json.load(open(p+'/meta.json'))
     assert subprocess.run(['git','-C','/repo','status','--porcelain','--untracked-files=no'],capture_output=True,text=True).stdout.strip()=='', 'repo dirty'
     a=subprocess.run(['git','-C','/repo','apply',p+'/patch.diff'],capture_output=True,text=True)
@@ -22,4 +22,5 @@ for d in sorted(os.listdir(V+'/seeded')):
     finally:
         subprocess.run(['git','-C','/repo','checkout','--','.'])
     print(d, res[d].get('exit'), (res[d].get('lines') or [''])[0][:200], flush=True)
+    json.dump(res,open(V+'/seeded/RESULTS.json','w'),indent=1)
 json.dump(res,open(V+'/seeded/RESULTS.json','w'),indent=1)
